@@ -679,3 +679,41 @@ Proof.
   destruct (f_ty (nfacts a0)); simpl in Hw; try contradiction; destruct Hw as [<-|[]];
     unfold is_real; simpl; rewrite Gf; reflexivity.
 Qed.
+
+(* ================= truncateCmp, nilValReturn ================= *)
+Lemma truncateCmp_total skip f : forall s, run_truncateCmp skip f <> Panic s.
+Proof.
+  apply run_expr_total. intros e He s. unfold truncateCmp_visit.
+  destruct e as [t p str a b ff ks]. destruct t; try discriminate. dmatch.
+Qed.
+
+Lemma nilValReturn_total f : forall s, run_nilValReturn f <> Panic s.
+Proof. apply run_stmt_total. intros e He s. unfold nilValReturn_visit. cbv zeta. dmatch. Qed.
+
+Lemma tc_check_cause skip xcast y w : In w (tc_check skip xcast y) -> w_cause w = xcast.
+Proof. unfold tc_check. intros H. dmatch_in H. destruct H as [<-|[]]. reflexivity. Qed.
+
+Lemma truncateCmp_cause skip f w : In w (warnings (run_truncateCmp skip f)) -> cause_in_file f w.
+Proof.
+  intros H. apply run_expr_warn in H as [e [He Hw]]. unfold cause_in_file. unfold truncateCmp_visit in Hw.
+  destruct e as [t p str a b ff ks]. destruct t; try contradiction.
+  destruct ks as [|x [|y [|? ?]]]; try contradiction.
+  assert (Hx : In x (all_nodes f)) by (eapply all_nodes_kid; eauto; unfold kids; simpl; auto).
+  assert (Hy : In y (all_nodes f)) by (apply (all_nodes_kid f _ y He); unfold kids; simpl; auto).
+  destruct (negb _); [contradiction|]. destruct (_ || _); [contradiction|].
+  destruct (is_trunc_cast x), (is_trunc_cast y); simpl in Hw; try contradiction;
+    apply tc_check_cause in Hw; rewrite Hw; assumption.
+Qed.
+
+Lemma nilValReturn_cause f w : In w (warnings (run_nilValReturn f)) -> cause_in_file f w.
+Proof.
+  intros H. apply run_stmt_warn in H as [e [He Hw]]. unfold cause_in_file. unfold nilValReturn_visit in Hw. cbv zeta in Hw.
+  destruct (negb (is_tag TIf e)); [contradiction|].
+  destruct (nth_error (kids e) (N.to_nat (na e))) as [cond|]; [|contradiction].
+  destruct (nth_error (kids e) (N.to_nat (na e) + 1)) as [body|] eqn:Eb; [|contradiction].
+  assert (Hb : In body (all_nodes f)) by (eapply all_nodes_kid; eauto; eapply nth_error_In; eauto).
+  destruct (kids body) as [|ret [|? ?]] eqn:Kb; try contradiction.
+  assert (Hr : In ret (all_nodes f)) by (eapply all_nodes_kid; eauto; rewrite Kb; simpl; auto).
+  destruct (negb (is_tag TReturn ret)); [contradiction|].
+  dmatch_in Hw. destruct Hw as [<-|[]]. exact Hr.
+Qed.
